@@ -6,6 +6,7 @@ package main
 //   R  generator.FileManager.BuildResponse (newInsertionPointReplacer, Add, Replace → strings.NewReplacer)
 //   D  thrift_reflection.GetFileDescriptor + meta.Marshal: 8 calls; every distinct byte string is a case, the
 //      model sorts the entries as the code does (so a second byte string for one descriptor disagrees with it)
+//   V  meta.Marshal of a ConstValueDescriptor map (pointer keys, equal contents allowed): (key, value) order
 //   N  pkg/namespace: Add in a given order, then Iterate / Get
 //
 // Map iteration order is re-randomised at every `range`, so repeating a call inside one process
@@ -273,6 +274,58 @@ func corrDescriptor(r *vl.Rng, out *vl.Out, n int) {
 	}
 	out.Stats["D:descriptors_with_a_map_of_2+_entries"] = multi
 	out.Stats["D:of_those_marshalled_in_2+_orders_within_8_calls"] = multiSeen
+}
+
+// corrConstMap: meta.Marshal of a map constant of the descriptor (keys are pointers: equal contents may
+// repeat). 8 calls per value; every distinct byte string is a case; the model sorts by (key, value) encoding.
+func corrConstMap(r *vl.Rng, out *vl.Out, n int) {
+	dupCases, dupMulti := 0, 0
+	for c := 0; c < n; c++ {
+		k := r.Intn(9)
+		cv := &thrift_reflection.ConstValueDescriptor{Type: thrift_reflection.ConstValueType_MAP,
+			ValueMap: map[*thrift_reflection.ConstValueDescriptor]*thrift_reflection.ConstValueDescriptor{}}
+		var es [][2]string
+		seenK, dup := map[string]bool{}, false
+		for i := 0; i < k; i++ {
+			key, val := fmt.Sprintf("k%d", r.Intn(4)), fmt.Sprintf("v%d", r.Intn(6))
+			if r.Chance(20) {
+				key += strings.Repeat("x", r.Intn(3))
+			}
+			dup = dup || seenK[key]
+			seenK[key] = true
+			es = append(es, [2]string{key, val})
+			cv.ValueMap[&thrift_reflection.ConstValueDescriptor{Type: thrift_reflection.ConstValueType_STRING, ValueString: key}] =
+				&thrift_reflection.ConstValueDescriptor{Type: thrift_reflection.ConstValueType_STRING, ValueString: val}
+		}
+		op := []string{"V", fmt.Sprint(len(es))}
+		for _, e := range es {
+			op = append(op, vl.Hex(e[0]), vl.Hex(e[1]))
+		}
+		seen := map[string]bool{}
+		for t := 0; t < 8; t++ {
+			bs, err := meta.Marshal(cv)
+			res := "err"
+			if err == nil {
+				res = vl.Hex(string(bs))
+			}
+			if !seen[res] {
+				seen[res] = true
+				out.Case(strings.Join(op, " "), res, len(es) >= 2)
+			}
+		}
+		if dup {
+			dupCases++
+			if len(seen) > 1 {
+				dupMulti++
+			}
+		}
+		out.Count(fmt.Sprintf("V:entries=%d,equal_keys=%v", min(len(es), 4), dup))
+		if c < 1 {
+			out.Sample(map[string]interface{}{"suite": "V", "entries": es})
+		}
+	}
+	out.Stats["V:maps_with_keys_of_equal_content"] = dupCases
+	out.Stats["V:of_those_marshalled_to_2+_byte_strings_within_8_calls"] = dupMulti
 }
 
 func nsRun(style int, es [][2]string) (string, bool) {
